@@ -183,6 +183,9 @@ func requiresValidCustomer(inv *bill.Invoice) bool {
 	// Invoice type categories that require a valid customer.
 	typeCats := []string{"1", "2", "5"}
 
+	if inv == nil || inv.Tax == nil {
+		return false
+	}
 	it := inv.Tax.Ext[ExtKeyInvoiceType].String()
 
 	for _, prefix := range typeCats {
